@@ -7,11 +7,20 @@
     [json_value]     folds an event sequence back into an [AwkV.Layout.value].
     [wf]             well-formed event sequence = exactly one complete value.
     [render]         compact writer (what Writer<>::Null/Bool/Int64/Double/String/Key/
-                     Start*/End* of the shim put into the stream).
+                     Start*/End* of the shim put into the stream).  The separator is decided
+                     from the previous event instead of the writer's level stack; the two
+                     coincide on well-formed sequences (checked against the implementation on
+                     every generated case).
     [parse]          SAX reader with kParseStopWhenDoneFlag (one document, rest returned).
     [do_parse]       the concatenated-documents loop of io/json.cpp with Handler's
                      string substitutions and its incomplete / invalid distinction.
 
+    [jv]             the documented rendering of a value (tuples as objects, strings, the
+                     substitution strings); [frag15], [u64ok], [bytes_ok], [printable] and the
+                     text-shape predicates at the end are vocabulary of the theorem statements.
+
+    The lexical layer modelled here is the clean-room RapidJSON substitute
+    impl/rapidjson_shim (RapidJSON itself is absent from the sandbox).
     Bytes are [Z] (0..255); texts are [list Z]; end of list = the terminating NUL. *)
 From AwkV Require Import Base Layout Valid.
 
